@@ -106,6 +106,7 @@ class HistParametricModel(ParametricModelBaseMixin, HistContainer):
         # don't use parent class setter for 'data' -> set directly
         self._data[1:-1] = self._bin_evaluation_method()
         self._pm_calculation_stale = False
+        self._on_data_change()
 
     def _bin_evaluation_rectangle(self):
         _height_centers = self.eval_model_function_density(self.bin_centers)
